@@ -4,6 +4,7 @@ import Fdo.Drv.Cose
 import Fdo.Drv.Prim
 import Fdo.Drv.Kex
 import Fdo.Drv.Voucher
+import Fdo.Drv.TO0
 import Fdo.Drv.Chunk
 /-
 Line-protocol driver: one operation per input line, one reply per output line.
@@ -19,6 +20,7 @@ def handlers : List (String × (String → List String → Option String)) := [
   ("prim.", Drv.Prim.handle),
   ("kex.", Drv.Kex.handle),
   ("voucher.", Drv.Voucher.handle),
+  ("to0.", Drv.TO0.handle),
   ("chunk.", Drv.Chunk.handle),
 ]
 
